@@ -1072,6 +1072,8 @@ run_case(long idx, void *ctx)
             mc_set_context(FAM[i].name);
             g_case[0] = 0;
             FAM[i].fn(idx);
+            if (idx % 5 == 0 && g_case[0])
+                mc_sample("[%s] %s", FAM[i].name, g_case);
             mc_count(FAM[i].name, 1);
             return;
         }
